@@ -22,3 +22,51 @@ Definition tx_set_input (t : tx) (k : nat) (i : txin) : outcome tx :=
 Definition txin_annotate (i : txin) (lk : option (list bit)) (sa : option N) : txin :=
   let i1 := match lk with Some s => txin_set_locking_script i s | None => i end in
   match sa with Some v => txin_set_satoshis i1 v | None => i1 end.
+
+(* ------------------------------------------------------------------ *)
+(* the remaining public construction / access API of src/transaction/{mod,txin,txout}.rs *)
+Definition tx_default : tx := tx_new 2 0.                                   (* Transaction::default() *)
+Definition txin_default : txin := mk_txin [] 0 [] 4294967295 None None.     (* TxIn::default() *)
+Definition txin_set_prev_tx_id (i : txin) (id : bytes) : txin :=
+  mk_txin id (vout i) (unlocking i) (sequence i) (locking i) (satoshis i).
+Definition txin_set_vout (i : txin) (v : N) : txin :=
+  mk_txin (prev_tx_id i) v (unlocking i) (sequence i) (locking i) (satoshis i).
+Definition txin_set_unlocking_script (i : txin) (s : list bit) : txin :=
+  mk_txin (prev_tx_id i) (vout i) s (sequence i) (locking i) (satoshis i).
+Definition txin_set_sequence (i : txin) (v : N) : txin :=
+  mk_txin (prev_tx_id i) (vout i) (unlocking i) v (locking i) (satoshis i).
+(* set_version / set_nlocktime mutate and return a clone *)
+Definition tx_set_version (t : tx) (v : N) : tx := mk_tx v (inputs t) (outputs t) (locktime t).
+Definition tx_set_nlocktime (t : tx) (v : N) : tx := mk_tx (version t) (inputs t) (outputs t) v.
+
+Definition prepend_input (t : tx) (i : txin) : tx := mk_tx (version t) (i :: inputs t) (outputs t) (locktime t).
+Definition prepend_output (t : tx) (o : txout) : tx := mk_tx (version t) (inputs t) (o :: outputs t) (locktime t).
+(* Vec::insert panics when index > len *)
+Definition insert_at {A} (l : list A) (k : nat) (x : A) : outcome (list A) :=
+  if Nat.leb k (length l) then Ok (firstn k l ++ x :: skipn k l) else Panic.
+Definition insert_input (t : tx) (k : nat) (i : txin) : outcome tx :=
+  do l <- insert_at (inputs t) k i; Ok (mk_tx (version t) l (outputs t) (locktime t)).
+Definition insert_output (t : tx) (k : nat) (o : txout) : outcome tx :=
+  do l <- insert_at (outputs t) k o; Ok (mk_tx (version t) (inputs t) l (locktime t)).
+Definition tx_set_output (t : tx) (k : nat) (o : txout) : outcome tx :=
+  if Nat.ltb k (length (outputs t))
+  then Ok (mk_tx (version t) (inputs t) (firstn k (outputs t) ++ o :: skipn (S k) (outputs t)) (locktime t))
+  else Panic.
+Definition tx_get_output (t : tx) (k : nat) : option txout := nth_error (outputs t) k.
+Definition add_inputs (t : tx) (l : list txin) : tx := fold_left add_input l t.
+Definition add_outputs (t : tx) (l : list txout) : tx := fold_left add_output l t.
+
+(* TxIn::get_finalised_script *)
+Definition txin_finalised_script (i : txin) : outcome (list bit) :=
+  match locking i with
+  | Some l => from_bytes (to_bytes (unlocking i) ++ to_bytes l)
+  | None => Ok (unlocking i)
+  end.
+(* get_sequence_as_bytes / get_n_locktime_as_bytes / get_satoshis_as_bytes: big-endian *)
+Definition u32_be_bytes (n : N) : bytes := be_bytes 4 n.
+Definition u64_be_bytes (n : N) : bytes := be_bytes 8 n.
+(* get_prev_tx_id(Some(true)) reverses; None and Some(false) do not *)
+Definition txin_prev_tx_id (i : txin) (little_endian : option bool) : bytes :=
+  match little_endian with Some true => rev (prev_tx_id i) | _ => prev_tx_id i end.
+Definition txin_outpoint (i : txin) (little_endian : option bool) : bytes :=
+  txin_prev_tx_id i little_endian ++ le_bytes 4 (vout i).
